@@ -34,7 +34,9 @@ EXPLANATION = (
     'R-C12.9 can_simulate becomes False only as a constructor default, in a CannotSimulate handler or by propagation from a mutator (the gate returns early when it is False); '
     'R-C12.3 also counts MigrationRecorder.ensure_schema() as state-changing; R-C12.5 also requires the missing-initial guard of ChangeField.simulate on every normal path; R-C12.10 the gate must see models the simulation removes (known finding).'
     ' '
-    "R-C12.11 in FieldSignature.diff every path that leaves the handler of a failed field construction reaches changed_attrs.append('field_type') (flag-sensitive path search: constants assigned to local flags prune the branches they rule out).")
+    "R-C12.11 in FieldSignature.diff every path that leaves the handler of a failed field construction reaches changed_attrs.append('field_type') (flag-sensitive path search: constants assigned to local flags prune the branches they rule out)."
+    ' '
+    'R-C12.12 = R-C05.8.')
 NOT_DECIDED = (
     'That every perturbed evolution is in fact rejected (quantifies over '
     'evolutions and needs the diff/simulate semantics executed).')
@@ -827,7 +829,13 @@ def r11_unbuildable_type_counts_as_changed(ctx):
                   'from FieldSignature.diff', n_h, 1)
 
 
+def r12_defaults_precedence(ctx):
+    from .c05 import r8_defaults_precedence
+    r8_defaults_precedence(ctx, rule_id='R-C12.12')
+
+
 def run(ctx):
+    r12_defaults_precedence(ctx)
     r11_unbuildable_type_counts_as_changed(ctx)
     r10_gate_sees_removed_models(ctx)
     r9_cannot_simulate_only_for_raw_sql(ctx)
